@@ -20,23 +20,7 @@ Raise ValueError
 Ok axis
 ).
 
-(* fragment g_reshape_infer from sparse/numba_backend/_coo/core.py:COO.reshape selector=('if', 'any((d == -1 for d in shape))') srchash=1245462cb775f0fe *)
-Definition g_reshape_infer (shape : pyv) (size : pyv) : res pyv :=
-extra <- (t1_ <- (match shape, as_int size with
- | VTuple l_, Some a_ =>
-   let b_ := (fold_right (fun v acc => match as_int v with Some d => if d =? -1 then acc else d * acc | None => acc end) 1 l_) in
-   if b_ =? 0 then (if a_ =? 0 then Raise ValueError else Raise OverflowError)
-   else if andb (Z.abs a_ <=? 2 ^ 53) (Z.abs b_ <=? 2 ^ 53) then Ok (VInt (Z.quot a_ b_))
-   else (* D12_size_beyond_2^53: float64 arithmetic, by correspondence only *)
-     let rne_ := (fun n : Z => if n <? 2 ^ 53 then n else let s := Z.log2 n - 52 in let m := n / 2 ^ s in let r := n mod 2 ^ s in let h := 2 ^ (s - 1) in let m' := if orb (h <? r) (andb (r =? h) (Z.odd m)) then m + 1 else m in m' * 2 ^ s) in
-     let qt_ := (fun x y : Z => let e0 := Z.log2 x - Z.log2 y - 52 in let sig := fun e : Z => if 0 <=? e then x / (y * 2 ^ e) else (x * 2 ^ (- e)) / y in let e := if 2 ^ 52 <=? sig e0 then e0 else e0 - 1 in let num := if 0 <=? e then x else x * 2 ^ (- e) in let den := if 0 <=? e then y * 2 ^ e else y in let m := num / den in let r := num mod den in let m' := if orb (den <? 2 * r) (andb (2 * r =? den) (Z.odd m)) then m + 1 else m in if 0 <=? e then m' * 2 ^ e else m' / 2 ^ (- e)) in
-     if a_ =? 0 then Ok (VInt 0) else
-     Ok (VInt (Z.sgn a_ * Z.sgn b_ * qt_ (rne_ (Z.abs a_)) (rne_ (Z.abs b_))))
- | _, _ => Raise TypeError end) ;; py_int t1_) ;;
-shape <- (match shape, as_int extra with
- | VTuple l_, Some e_ => Ok (VTuple (map (fun v => match as_int v with Some d => if d =? -1 then VInt e_ else v | None => v end) l_))
- | _, _ => Raise TypeError end) ;;
-Ok (VTuple [shape]).
+(* fragment g_reshape_infer: TRANSLATION FAILED: attribute `self.size` *)
 
 (* fragment g_reshape_size_mismatch from sparse/numba_backend/_coo/core.py:COO.reshape selector=('if', 'self.size != reduce(operator.mul, shape, 1)') srchash=62457ed2cc0cd515 *)
 Definition g_reshape_size_mismatch (shape : pyv) (size : pyv) : res pyv :=
